@@ -46,3 +46,30 @@ def node_contract(pid="C15"):
         min_paths=3,
         trusted=["p.done / p.errored / p.unrunnable of a predecessor are stable observations during one call"],
     )
+
+
+def update_status_contract(pid="C14"):
+    """NodeExecution.update_status never raises: Job.done reports an errored result by raising
+    ValueError (contracts/job_done.py), which update_status has to absorb for queued AND running jobs"""
+    return Contract(
+        file="pydra/engine/submitter.py",
+        qualname="NodeExecution.update_status",
+        params={"self": "U"},
+        default_effects=False,
+        callees={
+            "list": {"kind": "pure", "name": "list"},
+            ".items": {"kind": "pure", "name": "items"},
+            ".pop": {"kind": "effect", "may_raise": False},
+        },
+        attrs={
+            "started": {"kind": "U"}, "queued": {"kind": "U"}, "running": {"kind": "U"}, "successful": {"kind": "U"}, "errored": {"kind": "U"},
+            "state_index": {"kind": "U"}, "run_start_time": {"kind": "U"},
+            "done": {"effect": True, "may_raise": True, "raises": "ValueError", "kind": "U"},
+            "__getitem__:self.running.pop(index)": {"pure": True},
+        },
+        loops={0: {"invariants": []}, 1: {"invariants": []}},
+        allow_raise=False,
+        no_raise_role=f"property:{pid}",
+        min_paths=3,
+        trusted=["Job.done raises only ValueError (for an errored result); Job.errored and Job.run_start_time do not raise; dict item assignment and pop of an existing key do not raise"],
+    )
